@@ -1,7 +1,7 @@
 (* C09: print emits a normal form that round-trips.
    op C09.print    input "<cfg1> ## <cfg2> | <journal>"
         observed   "OK <P1> | reprint=.. | check=.. | bal=.."  (the binary on its own output) or ERR
-        model      the same line computed by the model: P1 = print_cmd J, then reparse P1 (the
+        model      the same line computed by the model: P1 = print_cmd_pinned J, then reparse P1 (the
                    model's parser + ToModel), print / check / balance on the re-read directives
         spec       the observed flags say same/ok/same AND Spec.PrintSpec.normal_form_b on the
                    OBSERVED P1 (re-read by the model: accepted, printing it reproduces it)
@@ -11,7 +11,7 @@
    op C09.model    input hex text, observed = per syntax directive the rendering of what
                    model.ParseDirective returned; model = parse_text + ToModel.model_directive
 
-   Two printers are modelled: K.print_cmd (journal.Print as pinned) and K.print_cmd_fixed
+   Two printers are modelled: K.print_cmd_pinned (journal.Print as pinned) and K.print_cmd
    (findings/C09-multi-assertion.patch).  KMODEL_C09=pinned|fixed selects one; the default
    "auto" takes the repaired printer when the observed P1 is its output and not the pinned
    printer's, the pinned one otherwise. *)
@@ -101,7 +101,7 @@ let () =
     let (c, j) = split_input inp in
     let cfgs = List.map (fun s -> decode_cfg s) (split_str " ## " c) in
     let ds = decode_journal j in
-    let pinned = K.print_cmd true and fixed = K.print_cmd_fixed true in
+    let pinned = K.print_cmd_pinned true and fixed = K.print_cmd true in
     let so = split_observed obs in
     let pr = match variant with
       | "pinned" -> pinned
